@@ -514,7 +514,18 @@ func genTexFractions(r *RNG) (sand, silt, clay int) {
 	// at least 5 % of each fraction and at most 85 % sand (C15 quantifier)
 	for {
 		clay = r.Range(5, 60)
-		silt = r.Range(5, 80)
+		silt = r.Range(5, 90)
+		if r.Bool(0.15) {
+			// corners of the admissible triangle
+			switch r.Intn(3) {
+			case 0:
+				clay, silt = r.Range(5, 8), r.Range(85, 90)
+			case 1:
+				clay, silt = r.Range(5, 10), r.Range(5, 10)
+			default:
+				clay, silt = r.Range(80, 90), r.Range(5, 8)
+			}
+		}
 		sand = 100 - clay - silt
 		if sand >= 5 && sand <= 85 {
 			return
